@@ -90,17 +90,32 @@ def nd_cases(run, rng, n, max_dim):
         rng.shuffle(axes)
         axis = tuple(axes) if (len(axes) > 1 or rng.random() < 0.5) else axes[0]
         want = oracle_nd(func, vals, labels, axes, ng)
-        for mode in ("eager", "dask"):
+        eager_ok = False
+        for mode in ("eager", "dask", "dask-oneblock"):
             arr = vals
+            method = None
             if mode == "dask":
                 arr = da.from_array(vals, chunks=tuple(G.random_composition(rng, s, 3) for s in shape))
+            elif mode == "dask-oneblock":
+                # one block along every label axis (blockwise applies, and is what the automatic choice takes)
+                arr = da.from_array(vals, chunks=tuple(G.random_composition(rng, s, 3) if i < nd - ld else (s,) for i, s in enumerate(shape)))
+                method = rng.choice([None, "blockwise", "map-reduce"])
             try:
                 with warnings.catch_warnings(), dask.config.set(scheduler="sync"):
                     warnings.simplefilter("ignore")
                     res, _ = flox.groupby_reduce(arr, labels, func=func, axis=axis, expected_groups=np.arange(ng, dtype=float),
-                                                 fill_value=np.nan, engine=rng.choice(["numpy", "flox"]))
+                                                 fill_value=np.nan, engine=rng.choice(["numpy", "flox"]), method=method)
                     res = np.asarray(res.compute() if hasattr(res, "compute") else res, dtype=float)
-            except (ValueError, NotImplementedError):
+                if mode == "eager":
+                    eager_ok = True
+            except (ValueError, NotImplementedError) as e:
+                if mode != "eager" and eager_ok and not (method == "blockwise" and k < ld):
+                    # the same request succeeds in memory: a chunked refusal is a difference (C02), not a refusal class
+                    run.violation({"property": "C08", "kind": "chunked run raises where the in-memory run succeeds",
+                                   "func": func, "mode": mode, "method": method, "shape": shape, "label_shape": list(lshape), "axis": list(axes),
+                                   "vals": [I.fnum(x) for x in vals.reshape(-1)], "labels": [I.fnum(x) for x in labels.reshape(-1)],
+                                   "chunks": [list(c) for c in arr.chunks], "exc": repr(e)[:300]}, tag="nd")
+                    continue
                 run.extra["refused_cases"] = run.extra.get("refused_cases", 0) + 1
                 continue
             except Exception as e:  # noqa: BLE001
